@@ -93,8 +93,8 @@ func c19IsRecvOf(f *ssa.Function, typ string) bool {
 func c19(r *core.Run) {
 	p := r.P
 	defer c19Extra(r, logxPkg)
-	r.Explanation = "Decides on the current source: every *os.File obtained by a RotateLogger method from os.Create/os.OpenFile is stored into l.fp on the success path (and no file handle opened in lib/logx is discarded); rotate renames the current file before re-creating it (os.Create truncates), closes the old handle first, runs the post-rotation clean-up only after a successful rename and on the renamed file; write asks the rule before writing, rotates only when told to, resets currentSize/marks the rule only after a successful rotate and adds len(v) after each write; the size rule is fed currentSize(+len(v)), compares it against maxSize = MB·2^20 in the right direction and only when maxSize > 0; os.Remove is called only on the rule's OutdatedFiles and on a log file whose gzip copy was written and closed without error; SizeLimitRotateRule.OutdatedFiles sorts before slicing, marks the prefix files[:len−maxBackups] only under maxBackups > 0 ∧ len > maxBackups and keeps the suffix, and marks by age only names below the boundary; Close closes done, waits for the worker, syncs and closes the file, once; the worker is registered before it starts and writes every received record; per rotate rule the backup name, the glob pattern and the retention boundary are built from the same string fields of the rule (file name, delimiter); while rotate renames only under a non-empty l.backup, no function leaves a logger with an opened file in l.fp and l.backup unset; for a rule that rotates on size and names backups after the clock, the name handed to os.Rename comes from a BackupFilename() call made during that rotation, not from the name stored when the file was opened (the type tests rotate makes on the rule are evaluated per rule type); no name listed by filepath.Glob is handed on by OutdatedFiles without having been compared with the rule's own file name (the current file is never listed, whatever the delimiter), and that comparison takes the rule's file name in cleaned form, the form filepath.Glob lists names in (filepath.Clean at the comparison or at every write of the field – whatever the spelling of the configured file name)."
-	r.NotDecided = "file contents after arbitrary write/rotate histories (including records still queued when Close is called and the window between a failed rotate and the next one), the text of the glob patterns beyond the rule fields they are built from, the date arithmetic of the retention rules, whether the daily rule's stored name is the day its records belong to, the order of RFC3339 local-offset names across a change of the UTC offset, whether the daily rule's retention boundary, built from the file name as configured, orders like the cleaned names Glob lists (it does not for a file name that is not in cleaned form, see the report of round 9), a current-file comparison made through anything else than ==/!= and filepath.Clean (os.SameFile, filepath.Abs: D4/K2/current-file-never-outdated does not recognise it), behaviour of the OS calls."
+	r.Explanation = "Decides on the current source: every *os.File obtained by a RotateLogger method from os.Create/os.OpenFile is stored into l.fp on the success path (and no file handle opened in lib/logx is discarded); rotate renames the current file before re-creating it (os.Create truncates), closes the old handle first, runs the post-rotation clean-up only after a successful rename and on the renamed file; write asks the rule before writing, rotates only when told to, resets currentSize/marks the rule only after a successful rotate and adds len(v) after each write; the size rule is fed currentSize(+len(v)), compares it against maxSize = MB·2^20 in the right direction and only when maxSize > 0; os.Remove is called only on the rule's OutdatedFiles and on a log file whose gzip copy was written and closed without error; SizeLimitRotateRule.OutdatedFiles sorts before slicing, marks the prefix files[:len−maxBackups] only under maxBackups > 0 ∧ len > maxBackups and keeps the suffix, and marks by age only names below the boundary; Close closes done, waits for the worker, syncs and closes the file, once; the worker is registered before it starts and writes every received record; per rotate rule the backup name, the glob pattern and the retention boundary are built from the same string fields of the rule (file name, delimiter); while rotate renames only under a non-empty l.backup, no function leaves a logger with an opened file in l.fp and l.backup unset; for a rule that rotates on size and names backups after the clock, the name handed to os.Rename comes from a BackupFilename() call made during that rotation, not from the name stored when the file was opened (the type tests rotate makes on the rule are evaluated per rule type); no name listed by filepath.Glob is handed on by OutdatedFiles without having been compared with the rule's own file name (the current file is never listed, whatever the delimiter), and that comparison takes the rule's file name in cleaned form, the form filepath.Glob lists names in (filepath.Clean at the comparison or at every write of the field – whatever the spelling of the configured file name), and so is the retention boundary the listed names are ordered against, as far as it is built from the file name (no way from the field to the boundary operand avoids filepath.Clean/Join)."
+	r.NotDecided = "file contents after arbitrary write/rotate histories (including records still queued when Close is called and the window between a failed rotate and the next one), the text of the glob patterns beyond the rule fields they are built from, the date arithmetic of the retention rules, whether the daily rule's stored name is the day its records belong to, the order of RFC3339 local-offset names across a change of the UTC offset, a current-file comparison made through anything else than ==/!= and filepath.Clean (os.SameFile, filepath.Abs: D4/K2/current-file-never-outdated does not recognise it), behaviour of the OS calls."
 
 	var loggerFns []*ssa.Function
 	for _, f := range p.PkgFuncs(logxPkg) {
